@@ -38,6 +38,7 @@ var nativeFuncs = map[string]interface{}{
 	"nat1": func(a, b float64) float64 { return a + 2*b },
 	"nat2": func(a, b float64) float64 { return a*3 + b },
 	"abc":  func(a float64) float64 { return a + 1 },
+	"notfn": 42, // a ParserConfig.Funcs value that is not a function (parse error when called)
 	"zed":  func(s string) string { return s + "!" },
 }
 
@@ -439,7 +440,8 @@ func runC19(c *vh.Ctx) {
 	}
 	c.Rule("determinism: a corpus (sources with 2-12 independent type errors in called and uncalled functions, natives mixed with AWK " +
 		"functions, 24 globals + 10 mutually recursive functions, repeated constants, two unused comma expressions) parsed 50x/300x, and " +
-		"the structured programs of C16's generators parsed 8x/30x; sharing: 8 corpus programs (arrays, recursion, dynamic regexes, constants, field " +
+		"the structured programs of C16's generators parsed 8x/30x, and invalid programs with 2-5 independent error sites of 26 kinds (parser, " +
+		"end-of-parse comma-grouping check, resolver) on different lines with random indentation parsed 50x/300x; sharing: 8 corpus programs (arrays, recursion, dynamic regexes, constants, field " +
 		"assignment, natives, getline, range patterns) x inputs x -v settings and accepted generated programs, each executed from 4-16 " +
 		"goroutines, also under the race detector; non-trivial = a source with at least one function (determinism) / every sharing case")
 
@@ -458,6 +460,27 @@ func runC19(c *vh.Ctx) {
 			pg = genRandom(c.Rng)
 		}
 		sources = append(sources, source{kind: "generated:" + pg.Shape, src: pg.src(pg.defaultOrder(), nil), natives: pg.Natives, pg: pg, repeats: genRep})
+	}
+	// invalid programs with several independent error sites of every kind, columns in both orders
+	nErr := c.N(120, 1200)
+	for i := 0; i < nErr; i++ {
+		var src string
+		kind := "errsites"
+		var nats []string
+		switch i % 4 {
+		case 0:
+			src = genMultiExprOnly(c.Rng)
+			kind = "errsites-multiexpr"
+		case 1:
+			src, _ = genErrSites(c.Rng, true)
+			kind = "errsites-all"
+			nats = []string{"notfn"}
+		default:
+			src, _ = genErrSites(c.Rng, false)
+			kind = "errsites-late"
+			nats = []string{"notfn"}
+		}
+		sources = append(sources, source{kind: kind, src: src, natives: nats, repeats: c.N(50, 300)})
 	}
 	type detOut struct {
 		first    parseResult
@@ -503,6 +526,16 @@ func runC19(c *vh.Ctx) {
 			c.Hit("det:verdict:accepted")
 		} else {
 			c.Hit("det:verdict:rejected")
+			if strings.HasPrefix(s.kind, "errsites") {
+				m := o.first.msg
+				if i := strings.IndexAny(m, "\"0123456789"); i > 0 {
+					m = m[:i]
+				}
+				c.Hit("det:errsites-reported:" + strings.TrimSpace(m))
+			}
+		}
+		if strings.HasPrefix(s.kind, "errsites") && o.first.ok {
+			c.Fail(vh.Failure{Kind: "oracle", What: "a program with several error sites was accepted", Case: c19Case{Kind: s.kind, Src: s.src, Natives: s.natives}})
 		}
 		c.Hit(fmt.Sprintf("det:distinct-results:%d", o.distinct))
 		if i%499 == 0 {
